@@ -5,7 +5,7 @@ META = dict(
     technique="TLC exploration of Multipart.tla (temp-file life cycle of the serve loop: pre-parse / on-demand parse / untouched, broken forms, Reset, Close) with TmpGone/TmpOwned invariants; histories replayed on a real Server with a private TMPDIR (B1); TLC-enumerated form menu round-tripped through WriteMultipartForm/Request.Read/MultipartForm (B3)",
     design_ref="DESIGN.md §4 C35",
     text="Multipart.tla models when a request's form is parsed (pre-parsed while reading the body, on demand by the handler, never), which files are spooled to disk (streaming parser above its 8 KiB threshold) and when they are removed (Request.Reset after the response, release at close); TLC checks that no temp file of an earlier request exists at any later handler start or after close, over all histories of <=2-3 requests x 3 forms x 3 modes x broken/intact x StreamRequestBody, and prints them. Replay lists a private TMPDIR at every handler start and after close. Round trip: 164 forms (repeated names, empty values, spaces, 0/100/12288-byte files, two files per field) written by WriteMultipartForm and read back buffered and streamed.",
-    note="Trusted: os temp-dir listing, standard library multipart writer as the independent encoder of the request bodies. The 16 MiB pre-parse spool threshold is not reached in these runs (pre-parsing creates no temp file below it).",
+    note="Trusted: os temp-dir listing, standard library multipart writer as the independent encoder of the request bodies.",
 )
 
 def run(ctx):
@@ -13,13 +13,23 @@ def run(ctx):
     fp, beh = ctx.tlc_gen("util", "MultipartGen", "MultipartGen.cfg", consts={"MR": mr}, outfile="forms.ndjson", workers=4, timeout=1200)
     if not beh or not fp:
         raise Infra("MultipartGen produced no behaviours/forms")
+    if ctx.quick:
+        # a history with a file above the 16 MiB pre-parse threshold moves >16 MiB through the
+        # server and the disk: the quick tier replays a seeded sample of 24 of them
+        import random
+        huge = [b for b in beh if "huge" in json.dumps(b)]
+        rest = [b for b in beh if "huge" not in json.dumps(b)]
+        random.Random(ctx.seed).shuffle(huge)
+        beh = rest + huge[:24]
+        ctx.extra["huge_histories_total"] = len(huge)
+        ctx.extra["huge_histories_replayed"] = min(24, len(huge))
     if not ctx.quick and len(beh) > 8000:
         import random
         random.Random(ctx.seed).shuffle(beh)
         beh = beh[:8000]
         ctx.exhaustive = False
     else:
-        ctx.exhaustive = True
+        ctx.exhaustive = not ctx.quick
     p = os.path.join(ctx.scratch, "c35_beh.ndjson")
     with open(p, "w") as f:
         for b in beh:
@@ -28,4 +38,4 @@ def run(ctx):
     ctx.absorb(recs)
     ctx.traces_validated = ctx.evaluations
     ctx.rule = "cases = connection histories printed by TLC + forms of the menu; non-trivial history = contains a request whose parse spools a file to disk"
-    ctx.assumptions = ["big file = 12 KiB (above the 8 KiB streaming threshold)", "histories of <= %d requests" % mr]
+    ctx.assumptions = ["big file = 12 KiB (above the 8 KiB streaming threshold), huge file = 16 MiB + 4 KiB (above the pre-parse threshold)", "histories of <= %d requests" % mr]
